@@ -28,12 +28,9 @@ func init() {
 func c10(r *core.Run) {
 	var ci int64
 	for si, sc := range scenarios {
-		if sc.EndsExc {
-			continue
-		}
 		seed := int64(1000*si) + r.Seed
 		pilot := runScenario(sc, seed, nil, 100*time.Millisecond, bgCtx)
-		if !pilot.Returned || pilot.Err != nil {
+		if !pilot.Returned || (pilot.Err != nil && !(sc.EndsExc && ch.IsException(pilot.Err))) {
 			r.Violation("harness:pilot", fmt.Sprintf("pilot of %s: %v", sc.Name, pilot.Err), sc.Name)
 			continue
 		}
@@ -133,7 +130,7 @@ func c10One(r *core.Run, sc scn, seed int64, f *fault) {
 		r.Count("gate_not_reached", 1)
 		return
 	}
-	if o.Err == nil {
+	if o.Err == nil || (sc.EndsExc && ch.IsException(o.Err)) {
 		r.Count("cancelled_after_completion", 1)
 		return
 	}
